@@ -60,7 +60,12 @@ func prots(thorough bool) []*prot {
 			Conf:      fmt.Sprintf("basicauth /secret %s %s", user, pass),
 			Protected: func(rel string) bool { return under(rel, "/secret") }},
 		{Name: "basicauth-block-exclude", Kind: "basicauth", Dir: "/secret", Target: "/secret/x.txt", BScope: "/secret",
-			Conf:      fmt.Sprintf("basicauth %s %s {\n\t\t/secret\n\t\texclude /secret/pub\n\t}", user, pass),
+			Conf: fmt.Sprintf("basicauth %s %s {\n\t\t/secret\n\t\texclude /secret/pub\n\t}", user, pass),
+			// (an exclude written without a trailing slash is a plain path prefix, as everywhere in casket)
+			Protected: func(rel string) bool { return under(rel, "/secret") && !strings.HasPrefix(rel, "/secret/pub") }},
+		// written with a trailing slash the exclude is confined to that directory
+		{Name: "basicauth-block-exclude-dir", Kind: "basicauth", Dir: "/secret", Target: "/secret/x.txt", BScope: "/secret",
+			Conf:      fmt.Sprintf("basicauth %s %s {\n\t\t/secret\n\t\texclude /secret/pub/\n\t}", user, pass),
 			Protected: func(rel string) bool { return under(rel, "/secret") && !under(rel, "/secret/pub") }},
 		// two rules: what the first one excludes is protected by the second
 		{Name: "basicauth-exclude-then-rule", Kind: "basicauth", Dir: "/secret", Target: "/secret/pub/open.txt", BScope: "/secret",
@@ -204,7 +209,7 @@ func (b *backends) handler(kind string) http.Handler {
 		b.mu.Unlock()
 		p := strings.ToLower(path.Clean("/" + r.URL.Path))
 		tok := b.protTok
-		if under(p, "/secret/pub") {
+		if strings.HasPrefix(p, "/secret/pub") { // (the prefix reading of `exclude /secret/pub`; file tokens decide the stricter variants)
 			tok = b.pubTok
 		}
 		w.Header().Set("Content-Type", "text/plain")
@@ -240,7 +245,7 @@ func buildFixture(c *lib.Ctx, label string) *c02.Fixture {
 	tpl := func(b []byte) []byte { return append(b, []byte("host={{.Host}}\n")...) }
 	md := func(b []byte) []byte { return append([]byte("# heading\n\n"), b...) }
 	for _, f := range []string{"/pub.txt", "/page.html", "/noidx/c.txt",
-		"/secret/index.html", "/secret/x.txt", "/secret/deep/z.txt", "/secret/pub/open.txt", "/secret/app.php",
+		"/secret/index.html", "/secret/x.txt", "/secret/deep/z.txt", "/secret/pub/open.txt", "/secret/pub-keys.txt", "/secret/publications/plan.txt", "/secret/app.php",
 		"/idx/index.html", "/idx/other.txt", "/home.html",
 		"/intern/y.txt", "/intern/index.html", "/intern/deep/w.txt", "/intern/app.php"} {
 		fx.AddFile(f, nil)
